@@ -144,7 +144,9 @@ def emit_enum_unit(u, repo_root):
     name = u.attrs['enum']
     src = open(os.path.join(repo_root, src_rel)).read()
     st, ob, cb = rustsrc.find_enum(src, name)
-    text = 'pub ' + rustsrc.strip_comments(src[st:cb + 1]) + '\n'
+    body = rustsrc.strip_comments(src[st:cb + 1])
+    body = re.sub(r'#\[[^\]]*\]', '', body)   # drops #[error(..)] / #[derive(..)] attributes
+    text = 'pub ' + body + '\n'
     return text, {'file': src_rel, 'enum': name, 'line': src.count('\n', 0, st) + 1}
 
 
